@@ -2,6 +2,7 @@ package chain
 
 import (
 	"bytes"
+	"context"
 	"encoding/hex"
 	"encoding/json"
 	"fmt"
@@ -16,6 +17,7 @@ import (
 	"google.golang.org/protobuf/reflect/protoregistry"
 
 	"github.com/cosmos/cosmos-sdk/orm/encoding/ormkv"
+	"github.com/cosmos/cosmos-sdk/orm/model/ormdb"
 	"github.com/cosmos/cosmos-sdk/orm/model/ormtable"
 	storetypes "github.com/cosmos/cosmos-sdk/store/types"
 	sdk "github.com/cosmos/cosmos-sdk/types"
@@ -53,6 +55,7 @@ type tableHandle struct {
 	table    ormtable.Table
 	storeKey storetypes.StoreKey
 	seqKey   []byte
+	msgType  protoreflect.MessageType
 }
 
 // Tables lists every ORM table the harness snapshots, sorted by name.
@@ -177,7 +180,17 @@ func buildTableHandles(a *App) []*tableHandle {
 		if tbl == nil {
 			panic(fmt.Sprintf("chain: no ORM table for %s", info.FullName))
 		}
-		h := &tableHandle{info: info, table: tbl, storeKey: key}
+		h := &tableHandle{info: info, table: tbl, storeKey: key, msgType: mt}
+		if info.Singleton {
+			k, _, err := tbl.EncodeEntry(&ormkv.PrimaryKeyEntry{TableName: protoreflect.FullName(info.FullName), Value: mt.New().Interface()})
+			if err != nil {
+				panic(fmt.Sprintf("chain: singleton key of %s: %v", info.FullName, err))
+			}
+			if a.singletonKeys == nil {
+				a.singletonKeys = map[string]*tableHandle{}
+			}
+			a.singletonKeys[string(k)] = h
+		}
 		if info.AutoIncrement {
 			k, _, err := tbl.EncodeEntry(&ormkv.SeqEntry{TableName: protoreflect.FullName(info.FullName), Value: 0})
 			if err != nil {
@@ -267,10 +280,121 @@ func (s *State) UnmarshalJSON(bz []byte) error {
 // auto-increment sequences, all bank balances, the bank supply and denom metadata from the working
 // state (open block / pending genesis) or else the last committed state.
 func (a *App) Snapshot() *State {
-	ctx := a.readCtx()
+	ctx := a.snapCtx()
+	var s *State
+	if !a.rawScanOff {
+		s = a.snapshotRaw(ctx)
+	}
+	if s == nil {
+		s = a.snapshotTables(ctx, nil)
+	}
+	a.snapshotBank(ctx, s)
+	return s
+}
+
+// SnapshotViaList is Snapshot implemented with one ORM List call per table (the reference
+// implementation; ~2x slower). Snapshot itself scans each module store once and decodes entries with
+// the ORM codecs; both must agree (chainprobe checks this).
+func (a *App) SnapshotViaList() *State {
+	ctx := a.snapCtx()
 	s := a.snapshotTables(ctx, nil)
 	a.snapshotBank(ctx, s)
 	return s
+}
+
+// RawScanActive reports whether Snapshot uses the single-scan fast path (it switches itself off,
+// permanently for this App, if a store holds a key the ORM codecs cannot decode).
+func (a *App) RawScanActive() bool { return !a.rawScanOff }
+
+// snapshotRaw reads all tables with ONE iterator per module store: every key/value pair is decoded
+// with ModuleDB.DecodeEntry; primary-key entries carry the full row, sequence entries the
+// auto-increment counters, index entries are skipped. Rows arrive in (table id, primary key) order,
+// i.e. the same per-table order as ORM List. Returns nil if anything cannot be decoded.
+func (a *App) snapshotRaw(ctx sdk.Context) *State {
+	s := &State{
+		Height:    a.header.Height,
+		TimeS:     a.header.Time.Unix(),
+		TimeN:     int32(a.header.Time.Nanosecond()),
+		Tables:    map[string][]Row{},
+		Sequences: map[string]uint64{},
+	}
+	if a.header.Time.IsZero() {
+		s.TimeS, s.TimeN = 0, 0
+	}
+	byFull := map[protoreflect.FullName]*tableHandle{}
+	for _, t := range a.tables {
+		byFull[protoreflect.FullName(t.info.FullName)] = t
+		s.Tables[t.info.Name] = []Row{}
+		if t.info.AutoIncrement {
+			s.Sequences[t.info.Name] = 0
+		}
+	}
+	scan := func(key storetypes.StoreKey, db ormdb.ModuleDB) bool {
+		it := ctx.KVStore(key).Iterator(nil, nil)
+		defer it.Close()
+		for ; it.Valid(); it.Next() {
+			if t := a.singletonKeys[string(it.Key())]; t != nil {
+				// singleton keys carry no index id and are not decodable through DecodeEntry
+				m := t.msgType.New()
+				if err := proto.Unmarshal(it.Value(), m.Interface()); err != nil {
+					return false
+				}
+				s.Tables[t.info.Name] = append(s.Tables[t.info.Name], a.rowFromMessage(m))
+				continue
+			}
+			e, err := db.DecodeEntry(it.Key(), it.Value())
+			if err != nil {
+				return false
+			}
+			switch x := e.(type) {
+			case *ormkv.PrimaryKeyEntry:
+				t := byFull[x.TableName]
+				if t == nil || x.Value == nil {
+					return false
+				}
+				s.Tables[t.info.Name] = append(s.Tables[t.info.Name], a.rowFromMessage(x.Value.ProtoReflect()))
+			case *ormkv.SeqEntry:
+				t := byFull[x.TableName]
+				if t == nil {
+					return false
+				}
+				s.Sequences[t.info.Name] = x.Value
+			case *ormkv.IndexKeyEntry:
+			default:
+				return false
+			}
+		}
+		return true
+	}
+	if !scan(a.keys[ecocredit.ModuleName], a.ecoDB) || !scan(a.keys[data.ModuleName], a.dataDB) {
+		a.rawScanOff = true
+		return nil
+	}
+	// singletons that were never written still read as their default row through the ORM
+	goCtx := sdk.WrapSDKContext(ctx)
+	for _, t := range a.tables {
+		if t.info.Singleton && len(s.Tables[t.info.Name]) == 0 {
+			s.Tables[t.info.Name] = a.listRows(goCtx, t)
+		}
+	}
+	return s
+}
+
+func (a *App) listRows(goCtx context.Context, t *tableHandle) []Row {
+	rows := []Row{}
+	it, err := t.table.List(goCtx, nil)
+	if err != nil {
+		panic(fmt.Sprintf("chain: list %s: %v", t.info.Name, err))
+	}
+	defer it.Close()
+	for it.Next() {
+		m, err := it.GetMessage()
+		if err != nil {
+			panic(fmt.Sprintf("chain: read %s: %v", t.info.Name, err))
+		}
+		rows = append(rows, a.rowFromMessage(m.ProtoReflect()))
+	}
+	return rows
 }
 
 // SnapshotTables reads only the named tables (no bank data). Unknown names panic.
@@ -282,7 +406,7 @@ func (a *App) SnapshotTables(names ...string) *State {
 		}
 		want[n] = true
 	}
-	return a.snapshotTables(a.readCtx(), want)
+	return a.snapshotTables(a.snapCtx(), want)
 }
 
 func (a *App) snapshotTables(ctx sdk.Context, only map[string]bool) *State {
@@ -301,21 +425,7 @@ func (a *App) snapshotTables(ctx sdk.Context, only map[string]bool) *State {
 		if only != nil && !only[t.info.Name] {
 			continue
 		}
-		rows := []Row{}
-		it, err := t.table.List(goCtx, nil)
-		if err != nil {
-			panic(fmt.Sprintf("chain: list %s: %v", t.info.Name, err))
-		}
-		for it.Next() {
-			m, err := it.GetMessage()
-			if err != nil {
-				it.Close()
-				panic(fmt.Sprintf("chain: read %s: %v", t.info.Name, err))
-			}
-			rows = append(rows, a.rowFromMessage(m.ProtoReflect()))
-		}
-		it.Close()
-		s.Tables[t.info.Name] = rows
+		s.Tables[t.info.Name] = a.listRows(goCtx, t)
 		if t.info.AutoIncrement {
 			s.Sequences[t.info.Name] = a.readSeq(ctx, t)
 		}
